@@ -514,6 +514,68 @@ func TestDiamondsAndRepeats(t *testing.T) {
 	}
 }
 
+// TestLongChains: use() chains of 5..40 scripts ending in a valid script, a failing one (own error chain of 1..4
+// positions), a missing one, or a call back into the chain; plus wide fans. The error of every script on the chain
+// lists the root cause and then every call site up to that script - also when that is more than 16 or 32 entries.
+func TestLongChains(t *testing.T) {
+	v := func(c ...int) script { return script{K: kValid, Calls: c} }
+	n := 0
+	for _, ln := range []int{5, 8, 15, 16, 17, 18, 31, 32, 33, 40} {
+		for end := 0; end < 6; end++ {
+			if (ln+end)%evid.NShards() != evid.Shard() {
+				continue
+			}
+			cfg := make(config, ln)
+			for i := 0; i < ln-1; i++ {
+				cfg[i] = v(i + 1)
+			}
+			switch end {
+			case 0:
+				cfg[ln-1] = v()
+			case 1:
+				cfg[ln-1] = script{K: kCheckFail}
+			case 2:
+				cfg[ln-1] = script{K: kUnparsable}
+			case 3:
+				cfg[ln-1] = v(ln) // missing
+			case 4:
+				cfg[ln-1] = v(ln / 2) // back into the chain
+			default:
+				cfg[ln-1] = v(0) // back to the start
+			}
+			id := make([]int, ln)
+			rev := make([]int, ln)
+			mid := make([]int, ln)
+			for i := range id {
+				id[i], rev[i], mid[i] = i, ln-1-i, (i+ln/2)%ln
+			}
+			for variant := 0; variant < 6; variant++ {
+				runConfig(t, "long", cfg, 2, [][]int{id, rev, mid}, variant)
+				n++
+			}
+		}
+	}
+	// wide: one script using many others (twice each), some of which fail
+	for _, w := range []int{6, 17, 33} {
+		cfg := make(config, w+1)
+		var calls []int
+		for i := 1; i <= w; i++ {
+			calls = append(calls, i, i)
+			cfg[i] = v()
+		}
+		cfg[0] = v(calls...)
+		id := make([]int, w+1)
+		for i := range id {
+			id[i] = i
+		}
+		runConfig(t, "long", cfg, 2, [][]int{id}, w)
+		cfg[w] = script{K: kCheckFail}
+		runConfig(t, "long", cfg, 2, [][]int{id}, w+1)
+		n += 2
+	}
+	evid.Exhaustive("use chains of 5..40 scripts x 6 endings x 6 text variants x 3 insertion orders; wide fans", n)
+}
+
 func TestReplays(t *testing.T) {
 	files, _ := filepath.Glob(filepath.Join(evid.Dir(), "replays", prop, "*.json"))
 	if r := os.Getenv("VERIF_REPLAY"); r != "" {
